@@ -60,6 +60,19 @@ check('C02', 'E1', 'exploration',
       'pre-tokenized text).',
       'DESIGN.md 2/C02')
 
-_PENDING = {'C04': 'check not built yet in this round (planned: bounded exhaustive exploration, see DESIGN.md section 2)', 'C05': 'check not built yet in this round (planned: bounded exhaustive exploration, see DESIGN.md section 2)', 'C06': 'check not built yet in this round (planned: bounded exhaustive exploration, see DESIGN.md section 2)', 'C07': 'check not built yet in this round (planned: bounded exhaustive exploration, see DESIGN.md section 2)', 'C08': 'check not built yet in this round (planned: bounded exhaustive exploration, see DESIGN.md section 2)', 'C09': 'check not built yet in this round (planned: bounded exhaustive exploration, see DESIGN.md section 2)', 'C10': 'check not built yet in this round (planned: bounded exhaustive exploration, see DESIGN.md section 2)', 'C11': 'check not built yet in this round (planned: bounded exhaustive exploration, see DESIGN.md section 2)', 'C12': 'check not built yet in this round (planned: bounded exhaustive exploration, see DESIGN.md section 2)', 'C13': 'check not built yet in this round (planned: bounded exhaustive exploration, see DESIGN.md section 2)', 'C14': 'check not built yet in this round (planned: bounded exhaustive exploration, see DESIGN.md section 2)', 'C15': 'check not built yet in this round (planned: bounded exhaustive exploration, see DESIGN.md section 2)', 'C16': 'check not built yet in this round (planned: bounded exhaustive exploration, see DESIGN.md section 2)', 'C17': 'check not built yet in this round (planned: bounded exhaustive exploration, see DESIGN.md section 2)', 'C18': 'check not built yet in this round (planned: bounded exhaustive exploration, see DESIGN.md section 2)', 'C19': 'check not built yet in this round (planned: bounded exhaustive exploration, see DESIGN.md section 2)', 'C20': 'check not built yet in this round (planned: bounded exhaustive exploration, see DESIGN.md section 2)'}
+check('C04', 'E2', 'model_checking',
+      'explicit-state BFS over Context API histories in lock-step with a scope-stack model, plus exhaustive nesting programs',
+      '(a) Breadth-first search over all histories (depth 5 quick / 7 thorough) of push / push(environment) / pop / pop(environment) / '
+      'pop(end token) / local and global newdef / let / character let / catcode / setVerbatimCatcodes / switch setter issued on a '
+      'real Context; after every history every frame (local names, lets, category table and its sharing with other frames) and '
+      'every public lookup is compared with a textbook lexical-scope stack; badly nested pops are explored one step and must '
+      'close to depth 1 with only global state left. (b) All nestings (depth 3 / 4) of {}, begingroup, center, $ $, \\textbf{}, '
+      'tabular cell, itemize item with local/global definitions, \\let, \\catcode/\\makeatletter and switch setters at each level, '
+      'probed after every open and close.',
+      'Trusted: the scope-stack model in vp/checks/c04.py. Model and implementation are never checked apart: every state is a '
+      'history replayed on fresh real objects (traces_validated_against_impl = all).',
+      'DESIGN.md 2/C04')
+
+_PENDING = {'C05': 'check not built yet in this round (planned: bounded exhaustive exploration, see DESIGN.md section 2)', 'C06': 'check not built yet in this round (planned: bounded exhaustive exploration, see DESIGN.md section 2)', 'C07': 'check not built yet in this round (planned: bounded exhaustive exploration, see DESIGN.md section 2)', 'C08': 'check not built yet in this round (planned: bounded exhaustive exploration, see DESIGN.md section 2)', 'C09': 'check not built yet in this round (planned: bounded exhaustive exploration, see DESIGN.md section 2)', 'C10': 'check not built yet in this round (planned: bounded exhaustive exploration, see DESIGN.md section 2)', 'C11': 'check not built yet in this round (planned: bounded exhaustive exploration, see DESIGN.md section 2)', 'C12': 'check not built yet in this round (planned: bounded exhaustive exploration, see DESIGN.md section 2)', 'C13': 'check not built yet in this round (planned: bounded exhaustive exploration, see DESIGN.md section 2)', 'C14': 'check not built yet in this round (planned: bounded exhaustive exploration, see DESIGN.md section 2)', 'C15': 'check not built yet in this round (planned: bounded exhaustive exploration, see DESIGN.md section 2)', 'C16': 'check not built yet in this round (planned: bounded exhaustive exploration, see DESIGN.md section 2)', 'C17': 'check not built yet in this round (planned: bounded exhaustive exploration, see DESIGN.md section 2)', 'C18': 'check not built yet in this round (planned: bounded exhaustive exploration, see DESIGN.md section 2)', 'C19': 'check not built yet in this round (planned: bounded exhaustive exploration, see DESIGN.md section 2)', 'C20': 'check not built yet in this round (planned: bounded exhaustive exploration, see DESIGN.md section 2)'}
 for _p, _why in _PENDING.items():
     NOT_APPLICABLE.append({'property_id': _p, 'reason': _why})
